@@ -1748,7 +1748,8 @@ func checkDecoderRowsCleared(c *Ctx, rule string) {
 		fN0 := w.Field("dig", "Result", "n")
 		fColl := w.Field("dig", "Result", "collection")
 		var resetSt *ssa.Store
-		allInstrs(sc0, func(in ssa.Instruction) {
+		reg0 := NewRegion(sc0)
+		reg0.AllInstrs(func(in ssa.Instruction) {
 			if st, ok := in.(*ssa.Store); ok {
 				if f, _ := fieldOf(st.Addr); f == fN0 {
 					if k, ok := constInt(st.Val); ok && k == 0 {
@@ -1757,8 +1758,17 @@ func checkDecoderRowsCleared(c *Ctx, rule string) {
 				}
 			}
 		})
+		var clears []ssa.CallInstruction
+		for _, ci := range reg0.Calls() {
+			if calleeName(ci) == "builtin clear" {
+				clears = append(clears, ci)
+			}
+		}
 		if resetSt != nil {
-			for _, ci := range callsNamed(sc0, "builtin clear") {
+			for _, ci := range clears {
+				if ci.Parent() != resetSt.Parent() {
+					continue
+				}
 				cs, cidx, cok := elemOf(ci.Common().Args[0])
 				if !cok || !isInduction(cidx) {
 					continue
@@ -1805,16 +1815,20 @@ func checkDecoderRowsCleared(c *Ctx, rule string) {
 		fN := w.Field("dig", "Result", "n")
 		fSing := w.Field("dig", "Result", "singleton")
 		resetN, clearS := false, false
-		allInstrs(sc, func(in ssa.Instruction) {
+		reg := NewRegion(sc)
+		reg.AllInstrs(func(in ssa.Instruction) {
+			if in.Parent() == scan {
+				return
+			}
 			switch x := in.(type) {
 			case *ssa.Store:
 				if f, _ := fieldOf(x.Addr); f == fN {
-					if k, ok := constInt(x.Val); ok && k == 0 && dominatesInstr(x, calls[0]) {
+					if k, ok := constInt(x.Val); ok && k == 0 && reg.Dominates(x, calls[0]) {
 						resetN = true
 					}
 				}
 			case *ssa.Call:
-				if calleeName(x) == "builtin clear" && isLoadOfField(x.Call.Args[0], fSing) && dominatesInstr(x, calls[0]) {
+				if calleeName(x) == "builtin clear" && isLoadOfField(x.Call.Args[0], fSing) && reg.Dominates(x, calls[0]) {
 					clearS = true
 				}
 			}
@@ -1822,6 +1836,51 @@ func checkDecoderRowsCleared(c *Ctx, rule string) {
 		okReset = resetN && clearS
 	}
 	c.Check(rule, "Result.Scan/reset-before-decode", sc.Pos(), okReset, "Scan resets the row counter and clears the scalar row before decoding (one decoder instance is reused for every log)")
+	// rows never share storage: what enters Result.collection is a newly made row – not the scalar row, whose
+	// cells are copied over every row, nor a row that is in the collection already (clearing or writing one
+	// would then clear or write the other)
+	fColl := w.Field("dig", "Result", "collection")
+	nRows := 0
+	for _, fn := range w.RepoFuncs() {
+		if fn.Pkg == nil || fn.Pkg != sc.Pkg || takesTestingTB(fn) {
+			continue
+		}
+		allInstrs(fn, func(in ssa.Instruction) {
+			st, ok := in.(*ssa.Store)
+			if !ok {
+				return
+			}
+			var rows []ssa.Value
+			whole := false
+			if ia, isIA := st.Addr.(*ssa.IndexAddr); isIA && isLoadOfField(stripConv(ia.X), fColl) {
+				rows = []ssa.Value{st.Val}
+			} else if f, _ := fieldOf(st.Addr); f == fColl {
+				switch v := stripConv(st.Val).(type) {
+				case *ssa.Call:
+					rows = appendedValues(v)
+					whole = len(rows) == 0
+				case *ssa.MakeSlice, *ssa.Const:
+				case *ssa.Slice:
+					whole = !isLoadOfField(stripConv(v.X), fColl)
+				default:
+					whole = true
+				}
+			} else {
+				return
+			}
+			if whole {
+				nRows++
+				c.OK(rule, fmt.Sprintf("%s/Result.collection-store#%d", fn.Name(), nRows), st.Pos(), "the rows stored are not written as append(collection, row…): not decided")
+				return
+			}
+			for _, rv := range rows {
+				nRows++
+				_, fresh := stripConv(rv).(*ssa.MakeSlice)
+				c.Check(rule, fmt.Sprintf("%s/Result.collection-row#%d-is-new", fn.Name(), nRows), st.Pos(), fresh,
+					"a row that enters Result.collection is made for it (make): it shares storage with no other row and not with the scalar row")
+			}
+		})
+	}
 }
 
 // loopElemCollections: the slices whose elements are addressed with an
